@@ -214,7 +214,7 @@ def fold_factories(im) -> FactoryFold:
             "make_dict_structure_fn": mk_gen("structure"),
         })
         cattrs_mod = ModuleRef("cattrs", attrs={"gen": gen_mod})
-        attrs_mod = ModuleRef("attrs", attrs={"fields": ("host", fields),
+        attrs_mod = ModuleRef("attrs", attrs={"fields": ("host", fields), "NOTHING": ("NOTHING",),
                                               "has": ("host", lambda c: isinstance(c, ClassRef) and c.name in fields_of)})
 
         def reg_factory(direction):
